@@ -1064,6 +1064,9 @@ func (c *BytecodeCompiler) compileMethodBody(location *position.Location, parame
 	if c.isGenerator {
 		c.emit(location.StartPos.Line, bytecode.GENERATOR)
 		c.emit(location.EndPos.Line, bytecode.RETURN)
+		// the RETURN of the prologue does not end the body: a `return` that is
+		// the first statement of the body must still be compiled
+		c.lastOpCode = bytecode.NOOP
 		c.registerCatch(-1, -1, c.nextInstructionOffset(), false)
 	} else if c.isAsync {
 		poolVar := c.defineLocal("_pool", location)
@@ -1074,6 +1077,9 @@ func (c *BytecodeCompiler) compileMethodBody(location *position.Location, parame
 		c.emitGetLocal(location.StartPos.Line, poolVar.index)
 		c.emit(location.StartPos.Line, bytecode.PROMISE)
 		c.emit(location.EndPos.Line, bytecode.RETURN)
+		// the RETURN of the prologue does not end the body: a `return` that is
+		// the first statement of the body must still be compiled
+		c.lastOpCode = bytecode.NOOP
 	}
 	c.bytecode.SetParameterCount(paramCount)
 
